@@ -332,7 +332,11 @@ pub fn path_coverage<K: Kit>(kit: &K, sp: &K::SP, eval: &WorldEval<K>, acc: &Acc
         if !(gap <= lvs + tol) {
             f.push(("segment-coverage-gap".into(), format!("segment {i}->{} (length {l}) has a gap of {gap} > lvs {lvs} between accepted validity queries ({n} on-segment queries)", i + 1)));
         }
-        let (run, _) = dense_invalid_run(kit, sp, eval, &a, &b, lvs);
+        // both directions: interpolate(a,b,t) and interpolate(b,a,1-t) are the same configuration
+        // but may be different representations (+pi / -pi, q / -q); a user checker that depends
+        // on the representation must not turn that into an alarm
+        let (run_ab, _) = dense_invalid_run(kit, sp, eval, &a, &b, lvs);
+        let run = if run_ab > 0.0 { run_ab.min(dense_invalid_run(kit, sp, eval, &b, &a, lvs).0) } else { 0.0 };
         if lvs > 0.0 && run >= lvs + 2.0 * lvs / 64.0 + tol {
             f.push(("invalid-stretch-on-segment".into(), format!("segment {i}->{} (length {l}) crosses an invalid stretch of length >= {run} (lvs {lvs})", i + 1)));
         }
